@@ -562,8 +562,40 @@ type (
 		// Payload is the payload data required to generate
 		// encoder/decoder.
 		Payload *PayloadData
+		// PayloadVar is the name of the variable holding the payload in
+		// the generated decoder, "p" unless a request header, parameter
+		// or cookie variable already uses that name.
+		PayloadVar string
 	}
 )
+
+// multipartPayloadVar returns the name of the variable that holds the payload
+// in the multipart request decoder: "p" or, if a request element variable is
+// already called that, a name that is free.
+func multipartPayloadVar(payload *PayloadData) string {
+	used := make(map[string]struct{})
+	if payload != nil && payload.Request != nil {
+		for _, e := range payload.Request.Headers {
+			used[e.VarName] = struct{}{}
+		}
+		for _, e := range payload.Request.PathParams {
+			used[e.VarName] = struct{}{}
+		}
+		for _, e := range payload.Request.QueryParams {
+			used[e.VarName] = struct{}{}
+		}
+		for _, e := range payload.Request.Cookies {
+			used[e.VarName] = struct{}{}
+		}
+	}
+	name := "p"
+	for i := 2; ; i++ {
+		if _, ok := used[name]; !ok {
+			return name
+		}
+		name = fmt.Sprintf("p%d", i)
+	}
+}
 
 // Get retrieves the transport data for the service with the given name
 // computing it if needed. It returns nil if there is no service with the given
@@ -866,6 +898,7 @@ func (ServicesData) analyze(httpSvc *expr.HTTPServiceExpr) *ServiceData {
 				ServiceName: svc.Name,
 				MethodName:  method.Name,
 				Payload:     ed.Payload,
+				PayloadVar:  multipartPayloadVar(ed.Payload),
 			}
 			ed.MultipartRequestEncoder = &MultipartData{
 				FuncName:    fmt.Sprintf("%s%sEncoderFunc", svc.StructName, method.VarName),
